@@ -28,11 +28,11 @@ Lemma map_splice {A B} (g : A -> B) l1 x y l2 :
 Proof. intro H. rewrite !map_app. cbn. rewrite H. reflexivity. Qed.
 
 (* name-keyed comparison across a splice that keeps the name *)
-Lemma cmp_each_splice_reject {A} (name : A -> oname) skip sk f l1 x y l2 :
+Lemma cmp_each_splice_reject {A} (name : A -> oname) skip f l1 x y l2 :
   named_ok name (l1 ++ x :: l2) = true -> name y = name x ->
   (forall z, In z l1 -> skip z = false -> f z z = Accept) -> skip x = false ->
   f x y = Reject ->
-  cmp_each name skip (fun n => lookup name sk n (l1 ++ y :: l2)) f (l1 ++ x :: l2) = Reject.
+  cmp_each name skip (fun n => lookup name n (l1 ++ y :: l2)) f (l1 ++ x :: l2) = Reject.
 Proof.
   intros Hn Hy Hp Hx Hf.
   rewrite cmp_each_zip.
@@ -52,7 +52,6 @@ Proof.
   - rewrite dir_eqb_neq by congruence. reflexivity.
   - rewrite dir_eqb_refl. cbn [check seq]. destruct (Bool.eqb (p_array p) arr'); [|reflexivity].
     cbn [check seq].
-    destruct (Nat.ltb 0 (p_width p) && Nat.ltb 0 w'); [|reflexivity]. cbn [check seq].
     replace (Nat.eqb (p_width p) w') with false; [reflexivity|].
     symmetry. apply Nat.eqb_neq. congruence.
   - rewrite dir_eqb_refl. cbn [check seq]. destruct (p_array p); reflexivity.
@@ -60,14 +59,11 @@ Qed.
 
 (* ---------- pins ---------- *)
 Lemma inst_equiv_same n r x q b q' b' :
-  (starts_with asg_prefix n = true -> exists w, asg_width n = Some w) ->
-  inst_equiv (mkopin (Some n) r (Some x) q b) (mkopin (Some n) r (Some x) q' b') = Accept.
+  inst_equiv (mkopin n r x q b) (mkopin n r x q' b') = Accept.
 Proof.
-  intro H. unfold inst_equiv. cbn [op_inst op_ref op_parent fst snd].
+  unfold inst_equiv. cbn [op_inst op_ref op_parent fst snd].
   rewrite !oname_eqb_refl. cbn [andb check].
-  destruct (starts_with asg_prefix n) eqn:E.
-  - destruct (H eq_refl) as [w ->]. rewrite str_eqb_refl. reflexivity.
-  - rewrite str_eqb_refl. reflexivity.
+  destruct (asg_class n); [rewrite str_eqb_refl|]; reflexivity.
 Qed.
 
 Lemma inner_equiv_verdict b q x b' q' x' : verdict (inner_equiv b q x b' q' x').
@@ -95,8 +91,11 @@ Proof.
   apply find_has_name_some in Ef as Hf. destruct Hf. exists i, r. auto.
 Qed.
 
-Lemma not_asg_name io i n : not_asg io -> In i io -> i_name i = Some n -> starts_with asg_prefix n = false.
-Proof. intros H Hin Hn. specialize (H i Hin). unfold is_asg_inst in H. rewrite Hn in H. assumption. Qed.
+Lemma not_asg_name io i n : not_asg io -> In i io -> i_name i = Some n -> asg_class (Some n) = None.
+Proof.
+  intros H Hin Hn. specialize (H i Hin). unfold is_asg_inst in H. rewrite Hn in H.
+  destruct (asg_class (Some n)); [discriminate|reflexivity].
+Qed.
 
 Lemma pin_diff_reject m x io p p' :
   not_asg io -> wf_pin io p = true -> wf_pin io p' = true -> pin_diff m p p' ->
@@ -107,18 +106,18 @@ Proof.
     destruct (wf_pin_out _ _ _ _ Hp') as [a' [r' [Ef' [Er' [Hin' Hn']]]]].
     unfold cmp_pin. cbn [resolve]. rewrite Ef, Er, Ef', Er'.
     unfold inst_equiv. cbn [op_inst].
-    rewrite (not_asg_name io a i Hna Hin Hn).
+    rewrite (not_asg_name io a i Hna Hin Hn). cbn [oname_eqb].
     rewrite str_eqb_neq by assumption. reflexivity.
   - destruct i as [n|]; [|discriminate].
     destruct (wf_pin_out _ _ _ _ Hp) as [a [r [Ef [Er [Hin Hn]]]]].
     unfold cmp_pin. cbn [resolve]. rewrite Ef, Er.
-    rewrite inst_equiv_same by (rewrite (not_asg_name io a n Hna Hin Hn); discriminate).
+    rewrite inst_equiv_same.
     cbn [seq op_bit op_port op_ref]. apply inner_equiv_port. assumption.
   - unfold cmp_pin. cbn [resolve]. apply inner_equiv_port. assumption.
   - destruct i as [n|]; [|discriminate].
     destruct (wf_pin_out _ _ _ _ Hp) as [a [r [Ef [Er [Hin Hn]]]]].
     unfold cmp_pin. cbn [resolve]. rewrite Ef, Er.
-    rewrite inst_equiv_same by (rewrite (not_asg_name io a n Hna Hin Hn); discriminate).
+    rewrite inst_equiv_same.
     cbn [seq op_bit op_port op_ref]. apply inner_equiv_bit. assumption.
   - unfold cmp_pin. cbn [resolve]. apply inner_equiv_bit. assumption.
 Qed.
@@ -127,7 +126,7 @@ Lemma cmp_pin_verdict2 x io ic o c :
   not_asg io -> wf_pin io o = true -> wf_pin ic c = true -> verdict (cmp_pin x x io ic o c).
 Proof.
   intros Hna Hp Hp'.
-  destruct o as [q b|[n|] q b| | |]; try discriminate; destruct c as [q' b'|[n'|] q' b'| | |]; try discriminate.
+  destruct o as [q b|[n|] q b| | | |]; try discriminate; destruct c as [q' b'|[n'|] q' b'| | | |]; try discriminate.
   - unfold cmp_pin. cbn [resolve]. apply inner_equiv_verdict.
   - destruct (wf_pin_out _ _ _ _ Hp') as [a' [r' [Ef' [Er' [Hin' Hn']]]]].
     unfold cmp_pin. cbn [resolve]. rewrite Ef', Er'. right. reflexivity.
@@ -139,8 +138,7 @@ Proof.
     apply verdict_seq; [|apply inner_equiv_verdict].
     unfold inst_equiv. cbn [op_inst op_ref op_parent].
     rewrite (not_asg_name io a n Hna Hin Hn).
-    apply verdict_seq; [apply verdict_check|].
-    destruct (_ && _); [apply verdict_check|right; reflexivity].
+    apply verdict_seq; apply verdict_check.
 Qed.
 
 Lemma cmp_pin_verdict x io ic p :
@@ -149,15 +147,15 @@ Proof. apply cmp_pin_verdict2. Qed.
 
 (* the key of a well-formed pin whose instance is not named like an assignment *)
 Lemma raw_key_noasg io p : not_asg io -> wf_pin io p = true ->
-  (exists q b, p = PIn q b /\ raw_key p = inr (false, None, q, b)) \/
-  (exists n q b, p = POut (Some n) q b /\ starts_with asg_prefix n = false /\
-                 raw_key p = inr (true, Some n, q, b)).
+  (exists q b, p = PIn q b /\ raw_key p = inr (false, None, q, Some b)) \/
+  (exists n q b, p = POut (Some n) q b /\ asg_class (Some n) = None /\
+                 raw_key p = inr (true, Some n, q, Some b)).
 Proof.
-  intros Hna Hp. destruct p as [q b|[n|] q b| | |]; try discriminate.
+  intros Hna Hp. destruct p as [q b|[n|] q b| | | |]; try discriminate.
   - left. exists q, b. split; reflexivity.
   - right. destruct (wf_pin_out _ _ _ _ Hp) as [a [r [Ef [Er [Hin Hn]]]]].
     pose proof (not_asg_name io a n Hna Hin Hn) as Hs.
-    exists n, q, b. split; [reflexivity|]. split; [assumption|]. cbn [raw_key inst_key]. rewrite Hs. reflexivity.
+    exists n, q, b. split; [reflexivity|]. split; [assumption|]. cbn [raw_key]. unfold inst_key. rewrite Hs. reflexivity.
 Qed.
 
 Lemma raw_key_noasg_some io p : not_asg io -> wf_pin io p = true -> exists k, raw_key p = inr k.
@@ -220,12 +218,13 @@ Proof.
 Qed.
 
 Lemma cmp_pin_sound xo xc io ic po pc :
+  fst xo <> None ->
   not_asg io -> wf_pin io po = true -> cmp_pin xo xc io ic po pc = Accept -> pc = po.
 Proof.
-  intros Hna Hw Hc. destruct po as [q b|[n|] q b| | |]; try discriminate.
+  intros Hxo Hna Hw Hc. destruct po as [q b|[n|] q b| | | |]; try discriminate.
   - (* a pin of a port of the definition *)
     unfold cmp_pin in Hc. cbn [resolve] in Hc.
-    destruct pc as [q' b'|[n'|] q' b'|n' rd rl q' b'| |]; cbn [resolve] in Hc; try discriminate.
+    destruct pc as [q' b'|[n'|] q' b'|n' rd rl q' b'|rd rl q' b'| |]; cbn [resolve] in Hc; try discriminate.
     + apply inner_equiv_sound in Hc as [-> ->]. reflexivity.
     + destruct (find (has_name i_name n') ic) as [i'|]; [|discriminate].
       destruct (i_ref i'); discriminate.
@@ -233,31 +232,31 @@ Proof.
     destruct (wf_pin_out _ _ _ _ Hw) as [i [r [Ef [Er [Hin Hn]]]]].
     pose proof (not_asg_name io i n Hna Hin Hn) as Hasg.
     unfold cmp_pin in Hc. cbn [resolve] in Hc. rewrite Ef, Er in Hc.
-    destruct pc as [q' b'|[n'|] q' b'|n' rd rl q' b'| |]; cbn [resolve] in Hc; try discriminate.
+    destruct pc as [q' b'|[n'|] q' b'|n' rd rl q' b'|rd rl q' b'| |]; cbn [resolve] in Hc; try discriminate.
     + destruct (find (has_name i_name n') ic) as [i'|]; [|discriminate].
       destruct (i_ref i') as [r'|]; [|discriminate].
       apply seq_accept in Hc as [H1 H2].
       cbn [op_bit op_port op_ref] in H2. apply inner_equiv_sound in H2 as [-> ->].
       unfold inst_equiv in H1. cbn [op_inst] in H1. rewrite Hasg in H1.
-      apply seq_accept in H1 as [H1 _]. apply check_accept in H1. apply str_eqb_spec in H1.
-      subst n'. reflexivity.
+      apply seq_accept in H1 as [H1 _]. apply check_accept in H1. apply oname_eqb_spec in H1.
+      inversion H1. subst n'. reflexivity.
+    + apply seq_accept in Hc as [H1 _]. unfold inst_equiv in H1.
+      apply seq_accept in H1 as [_ H1]. cbn [op_ref op_parent fst snd pctx] in H1.
+      apply check_accept in H1. apply andb_true_iff in H1 as [H1 _].
+      apply andb_true_iff in H1 as [_ H1]. apply oname_eqb_spec in H1. contradiction.
     + apply seq_accept in Hc as [H1 _]. unfold inst_equiv in H1. cbn [op_inst] in H1.
       rewrite Hasg in H1. discriminate.
-    + apply seq_accept in Hc as [H1 _]. unfold inst_equiv in H1.
-      apply seq_accept in H1 as [_ H1]. cbn [op_ref op_parent fst snd] in H1.
-      destruct (oname_eqb (fst r) rd && oname_eqb (snd r) rl); [|discriminate].
-      destruct (fst xo); discriminate.
 Qed.
 
 (* the pins of an accepted wire are those of the original wire, in some order *)
-Lemma cmp_wire_sound xo xc io ic wo wc : not_asg io -> forallb (wf_pin io) wo = true ->
+Lemma cmp_wire_sound xo xc io ic wo wc : fst xo <> None -> not_asg io -> forallb (wf_pin io) wo = true ->
   cmp_wire xo xc io ic wo wc = Accept -> Permutation wo wc.
 Proof.
-  intros Hna Hw Hc. destruct (cmp_wire_matched _ _ _ _ _ _ Hc) as [wm [Hp HF]].
+  intros Hxo Hna Hw Hc. destruct (cmp_wire_matched _ _ _ _ _ _ Hc) as [wm [Hp HF]].
   assert (wm = wo); [|subst; apply Permutation_sym; assumption].
   clear Hp Hc. revert Hw. induction HF as [|o c wo' wm' Hoc HF' IH]; intro Hw; [reflexivity|].
   cbn in Hw. apply andb_true_iff in Hw as [Hw1 Hw2].
-  rewrite (cmp_pin_sound _ _ _ _ _ _ Hna Hw1 Hoc), (IH Hw2). reflexivity.
+  rewrite (cmp_pin_sound _ _ _ _ _ _ Hxo Hna Hw1 Hoc), (IH Hw2). reflexivity.
 Qed.
 
 Lemma pin_diff_neq m p p' : pin_diff m p p' -> p <> p'.
@@ -266,11 +265,11 @@ Proof. destruct 1; intro Heq; inversion Heq; congruence. Qed.
 (* ---------- wires and cables across a splice ---------- *)
 (* one pin replaced by a different one: whatever the order, the pins no longer are the same *)
 Lemma cmp_wire_splice_reject m x io P1 p p' P2 :
-  (forall i, In i io -> asg_ok i) -> not_asg io ->
+  fst x <> None -> (forall i, In i io -> asg_ok i) -> not_asg io ->
   forallb (wf_pin io) (P1 ++ p :: P2) = true -> wf_pin io p' = true -> pin_diff m p p' ->
   cmp_wire x x io io (P1 ++ p :: P2) (P1 ++ p' :: P2) = Reject.
 Proof.
-  intros Hio Hna Hw Hp' Hd.
+  intros Hx Hio Hna Hw Hp' Hd.
   assert (Hw' : forallb (wf_pin io) (P1 ++ p' :: P2) = true).
   { rewrite forallb_app in *. cbn in *. apply andb_true_iff in Hw as [H1 H2].
     apply andb_true_iff in H2 as [_ H2]. rewrite H1, Hp', H2. reflexivity. }
@@ -280,7 +279,7 @@ Proof.
     - intros c Hc. apply pin_key_wf; auto.
     - intros o c Ho Hc. apply cmp_pin_verdict2; auto. }
   destruct Hv as [Ha|Hr]; [exfalso|assumption].
-  apply cmp_wire_sound in Ha; [|assumption|assumption].
+  apply cmp_wire_sound in Ha; [|assumption|assumption|assumption].
   apply (perm_splice_same pinref_eq_dec) in Ha. exact (pin_diff_neq m p p' Hd Ha).
 Qed.
 
@@ -307,10 +306,10 @@ Lemma cable_diff_name io m c c' : cable_diff io m c c' -> c_name c' = c_name c.
 Proof. destruct 1; reflexivity. Qed.
 
 Lemma cable_diff_reject io m x c c' :
-  (forall i, In i io -> asg_ok i) -> not_asg io -> wf_cable io c = true ->
+  fst x <> None -> (forall i, In i io -> asg_ok i) -> not_asg io -> wf_cable io c = true ->
   cable_diff io m c c' -> cmp_cable x x io io c c' = Reject.
 Proof.
-  intros Hio Hna Hc Hd. destruct Hd as [c ws' Hl|m c ws' Hs]; unfold cmp_cable; cbn [c_name c_oid c_wires];
+  intros Hx Hio Hna Hc Hd. destruct Hd as [c ws' Hl|m c ws' Hs]; unfold cmp_cable; cbn [c_name c_oid c_wires];
     rewrite !oname_eqb_refl; cbn [check seq].
   - replace (Nat.eqb (length (c_wires c)) (length ws')) with false; [reflexivity|].
     symmetry. apply Nat.eqb_neq. congruence.
@@ -418,7 +417,6 @@ Qed.
 (* ---------- definitions ---------- *)
 Record wf_def_facts (d : defn) : Prop := {
   wd_np : named_ok p_name (d_ports d) = true;
-  wd_wp : forall p, In p (d_ports d) -> wf_port p = true;
   wd_nc : named_ok c_name (d_cables d) = true;
   wd_wc : forallb (wf_cable (d_insts d)) (d_cables d) = true;
   wd_ni : named_ok i_name (d_insts d) = true;
@@ -427,22 +425,21 @@ Record wf_def_facts (d : defn) : Prop := {
 Lemma wf_def_unpack d : wf_def d = true -> wf_def_facts d.
 Proof.
   unfold wf_def. intro H. split_andb. split; try assumption.
-  - intros p Hp. rewrite forallb_forall in H4. apply H4. assumption.
   - intros i Hi. rewrite forallb_forall in H0. apply H0. assumption.
 Qed.
 
 Lemma ports_stage_refl x d : wf_def_facts d ->
-  cmp_each p_name no_skip (fun n => lookup p_name false n (d_ports d)) (cmp_port x x) (d_ports d) = Accept.
+  cmp_each p_name no_skip (fun n => lookup p_name n (d_ports d)) (cmp_port x x) (d_ports d) = Accept.
 Proof.
-  intros [Hnp Hwp _ _ _ _]. rewrite cmp_each_zip by (assumption || reflexivity).
-  apply cmp_zip_refl. intros p Hp _. apply cmp_port_refl. apply Hwp. assumption.
+  intros [Hnp _ _ _ _]. rewrite cmp_each_zip by (assumption || reflexivity).
+  apply cmp_zip_refl. intros p Hp _. apply cmp_port_refl.
 Qed.
 
 Lemma asg_ok_all d : wf_def_facts d -> forall i, In i (d_insts d) -> asg_ok i.
 Proof. intros H i Hi. apply wf_inst_asg_ok. apply (wd_wi d H). assumption. Qed.
 
 Lemma cables_stage_refl x d : wf_def_facts d ->
-  cmp_each c_name no_skip (fun n => lookup c_name false n (d_cables d))
+  cmp_each c_name no_skip (fun n => lookup c_name n (d_cables d))
            (cmp_cable x x (d_insts d) (d_insts d)) (d_cables d) = Accept.
 Proof.
   intros H. rewrite cmp_each_zip by (apply (wd_nc d H) || reflexivity).
@@ -451,7 +448,7 @@ Proof.
 Qed.
 
 Lemma cables_stage_verdict x d xs : wf_def_facts d -> not_asg (d_insts d) -> pins_ok xs d ->
-  verdict (cmp_each c_name no_skip (fun n => lookup c_name false n (d_cables d))
+  verdict (cmp_each c_name no_skip (fun n => lookup c_name n (d_cables d))
                     (cmp_cable x x (d_insts d) xs) (d_cables d)).
 Proof.
   intros H Hna Hok. rewrite cmp_each_zip by (apply (wd_nc d H) || reflexivity).
@@ -489,7 +486,7 @@ Lemma wf_pin_splice l1 i i' l2 p :
   (exists r, i_ref i = Some r) -> (exists r', i_ref i' = Some r') \/ i_ref i' = i_ref i ->
   wf_pin (l1 ++ i :: l2) p = true -> wf_pin (l1 ++ i' :: l2) p = true.
 Proof.
-  intros Hn _ [r Hr] Hr'. destruct p as [q b|[n|] q b| | |]; cbn; try tauto.
+  intros Hn _ [r Hr] Hr'. destruct p as [q b|[n|] q b| | | |]; cbn; try tauto.
   pose proof (find_splice_keep l1 i i' l2 n Hn) as Hf.
   destruct (find (has_name i_name n) (l1 ++ i :: l2)) as [a|];
     destruct (find (has_name i_name n) (l1 ++ i' :: l2)) as [a'|]; try tauto; try discriminate.
@@ -501,7 +498,7 @@ Lemma wf_pin_splice_noref l1 i i' l2 p :
   i_name i' = i_name i -> i_ref i' = i_ref i ->
   wf_pin (l1 ++ i :: l2) p = true -> wf_pin (l1 ++ i' :: l2) p = true.
 Proof.
-  intros Hn Hr. destruct p as [q b|[n|] q b| | |]; cbn; try tauto.
+  intros Hn Hr. destruct p as [q b|[n|] q b| | | |]; cbn; try tauto.
   pose proof (find_splice_keep l1 i i' l2 n Hn) as Hf.
   destruct (find (has_name i_name n) (l1 ++ i :: l2)) as [a|];
     destruct (find (has_name i_name n) (l1 ++ i' :: l2)) as [a'|]; try tauto; try discriminate.
@@ -528,10 +525,10 @@ Lemma def_diff_name m d d' : def_diff m d d' -> d_name d' = d_name d /\ d_oid d'
 Proof. destruct 1; split; reflexivity. Qed.
 
 Lemma def_diff_reject m lo d d' :
-  wf_def d = true -> no_asg_def d = true -> def_diff m d d' ->
+  d_name d <> None -> wf_def d = true -> no_asg_def d = true -> def_diff m d d' ->
   cmp_def lo lo d d' = Reject.
 Proof.
-  intros Hwf Hna Hd. apply wf_def_unpack in Hwf. apply not_asg_of in Hna.
+  intros Hdn Hwf Hna Hd. apply wf_def_unpack in Hwf. apply not_asg_of in Hna.
   pose proof (asg_ok_all d Hwf) as Hasg.
   destruct Hd as [m d ps' Hs|d ps' Hs|d ps' Hs|m d cs' Hs|d cs' Hs|d cs' Hs|m d xs' Hs|d xs' Hs Hok|d xs' Hs Hok];
     unfold cmp_def, set_ports, set_cables, set_insts;
@@ -541,7 +538,7 @@ Proof.
     rewrite cmp_each_splice_reject; try reflexivity.
     + rewrite Hl. apply (wd_np d Hwf).
     + eapply port_diff_name. eassumption.
-    + intros z Hz _. apply cmp_port_refl. apply (wd_wp d Hwf). rewrite <- Hl. apply in_or_app. left. assumption.
+    + intros z Hz _. apply cmp_port_refl.
     + eapply port_diff_reject. eassumption.
   - inversion Hs as [l1 p l2 Hl Hr]. rewrite length_app_cons_neq. reflexivity.
   - inversion Hs as [l1 p l2 Hl Hr]. rewrite length_app_cons_neq'. reflexivity.
@@ -583,6 +580,12 @@ Proof.
 Qed.
 
 (* ---------- libraries and netlists ---------- *)
+Lemma named_ok_in {A} (name : A -> oname) l x : named_ok name l = true -> In x l -> name x <> None.
+Proof.
+  intros H Hin. apply named_ok_spec in H as [ns [Hm _]].
+  destruct (map_some_in name l ns x Hm Hin) as [n [Hn _]]. congruence.
+Qed.
+
 Lemma lib_diff_name m l l' : lib_diff m l l' -> l_name l' = l_name l.
 Proof. destruct 1; reflexivity. Qed.
 
@@ -600,7 +603,7 @@ Proof.
     + rewrite Hl. assumption.
     + apply (def_diff_name m d d' Hdd).
     + intros z Hz _. apply cmp_def_refl. apply Hw. rewrite <- Hl. apply in_or_app. left. assumption.
-    + apply (def_diff_reject m); auto.
+    + apply (def_diff_reject m); auto. apply (named_ok_in d_name (l_defs l)); assumption.
   - inversion Hs as [l1 d l2 Hl Hr]. rewrite length_app_cons_neq. reflexivity.
   - inversion Hs as [l1 d l2 Hl Hr]. rewrite length_app_cons_neq'. reflexivity.
 Qed.
